@@ -133,3 +133,11 @@ add("C01",
     "Decisive assumption: the xmlsec1 contract in harness/xmlsecmodel.py (ID registration per element name, first-wins duplicates, first Signature in document order, same-document dereference, enveloped transform). Documents are concrete per path (indices symbolic). Trusted: CrossHair/z3, clock model.",
     "DESIGN.md 3/C01")
 NOT_APPLICABLE.pop("C01", None)
+
+add("C08",
+    "CrossHair-driven exploration of the full IdP->SP flow (Server.create_authn_response -> real serialisation -> base64 -> Saml2Client.parse_authn_request_response) over symbolic indices into an alphabet of hostile values, with model signing/encryption",
+    "IdP and SP built from each other's generated metadata: for attribute values and NameID text from a 19-entry alphabet (XML-special, quotes, non-ASCII, astral, padded, empty, line breaks, comment/element/declaration look-alikes, ']]>', long), 4 NameID formats, 3 authn classes, sign x sign x encrypt and 4 satisfied SP requirement settings, "
+    "the response is accepted and ava, name_id, in_response_to, issuer, came_from, authn class and session expiry equal what was asserted; the SP finds exactly one assertion with exactly the asserted attributes.",
+    "Weaker than the purely symbolic checks: content is concrete per path (z3 enumerates the index space); quick samples one diagonal per alphabet entry, thorough the pair grid. Trusted: model backend for sign/verify/encrypt/decrypt; clock model.",
+    "DESIGN.md 3/C08")
+NOT_APPLICABLE.pop("C08", None)
